@@ -1,11 +1,11 @@
-\* object-graph (quick + thorough): 2 commits x 16 root-tree assignments over 4 pool trees x <= 1 tag x include-tag x thin-pack; negotiation collapsed, fixed pop order
+\* thorough: tag chains, <= 2 tags, the second may tag the first
 \* (harness/props/c05.py writes the same configuration at run time; TransferCases uses the same constants
 \*  plus SampleMod / SampleSeed)
 SPECIFICATION Spec
 CONSTANTS
   NC = 2
-  NTP = 4
-  NT = 1
+  NTP = 2
+  NT = 2
   MaxHeads = 2
   MaxWants = 2
   Modes = {"detailed"}
